@@ -166,17 +166,17 @@ def materialise(scn, root):
 def materialise_late(scn, top):
     """files that appear in (or vanish from) the searched directory while the reader object is alive"""
     with core.unhooked():
-        for e in scn.get('late', []):
-            p = os.path.join(top, e['path'])
-            os.makedirs(os.path.dirname(p), exist_ok=True)
-            with open(p, 'wb') as f:
-                f.write(_data(e))
-            os.utime(p, (e['mtime'], e['mtime']))
         for path in scn.get('late_remove', []):
             try:
                 os.unlink(os.path.join(top, path))
             except OSError:
                 pass
+        for e in scn.get('late', []):        # (after the removals: a path in both lists is a file that was replaced)
+            p = os.path.join(top, e['path'])
+            os.makedirs(os.path.dirname(p), exist_ok=True)
+            with open(p, 'wb') as f:
+                f.write(_data(e))
+            os.utime(p, (e['mtime'], e['mtime']))
 
 
 def make_url(scn, top):
